@@ -18,7 +18,7 @@ type c03 struct{ base }
 
 func init() {
 	runner.Register(&c03{base{id: "C03", level: "exploration",
-		rule: "exhaustive: every sequence of <=4 (thorough <=5) ops over 2 items x {put g=x, put g=y, put without g, update SET g, update REMOVE g, delete} on a table with a hash-only GSI, a hash+range GSI and an LSI (both adapters); seeded: histories of 30-60 writes over <=18 keys sharing 2 index-hash and 3 index-range values, mixed with ClearTable, UpdateTable index creation (late, on non-empty tables) and deletion. After EVERY step: Scan of every index, Query of every index per index-hash value (forward and reverse), DescribeTable per-index ItemCount, plus base table reads, compared with the index derived from the model's base map. non-trivial = >=2 items were in some index at some point and an index key was changed, dropped, gained late or its owner deleted; distinct by (adapter, op sequence shape). Legacy writes: UpdateItem without UpdateExpression carrying AttributeUpdates (PUT / ADD / DELETE; 21 state x request pairs per adapter) may be refused; if performed, every index must mirror the base table (judged from the base table itself, no model). Every history is replayed on a fresh client WITHOUT reads in between and observed only at the end (rule prefix unread:).",
+		rule: "exhaustive: every sequence of <=4 (thorough <=5) ops over 2 items x {put g=x, put g=y, put without g, update SET g, update REMOVE g, delete} on a table with a hash-only GSI, a hash+range GSI and an LSI (both adapters); seeded: histories of 30-60 writes over <=18 keys sharing 2 index-hash and 3 index-range values, mixed with ClearTable, UpdateTable index creation (late, on non-empty tables) and deletion. After EVERY step: Scan of every index, Query of every index per index-hash value (forward and reverse), DescribeTable per-index ItemCount, plus base table reads, compared with the index derived from the model's base map. non-trivial = >=2 items were in some index at some point and an index key was changed, dropped, gained late or its owner deleted; distinct by (adapter, op sequence shape). Legacy writes: UpdateItem without UpdateExpression carrying AttributeUpdates (PUT / ADD / DELETE; 21 state x request pairs per adapter) may be refused; if performed, every index must mirror the base table (judged from the base table itself, no model). Every history is replayed on a fresh client WITHOUT reads in between and observed only at the end (rule prefix unread:). Transactions (TransactWriteItems with plain and conditional puts / deletes, refused at the first, a middle or the last action, or completing) on the indexed table: afterwards every index mirrors the base table; a failed transaction changed nothing.",
 		assumptions: append([]string{"white-box index state (hook accessor) is diagnostic only"}, commonAssumptions...)}})
 }
 
